@@ -107,6 +107,12 @@ _chain("C08", ["window_step", "window_init", "counter_is_window_count", "window_
 
 _chain("C10", ["fees_to_proposer", "awards_minted_once", "begin_rewards", "award_accumulates", "empty_queue_mints_nothing"])
 
+_chain("C02", ["supply_eq_balances", "tx_supply", "end_supply", "begin_supply", "queue_ops_frame"])
+_chain("C04", ["pool_backs_stake", "genesis_surplus_zero", "surplus_step", "stake_exact", "maturity_exact"])
+_chain("C05", ["updates_reach_target", "target_spec", "update_no_halt", "genesis_updates"])
+_chain("C06", ["index_and_queue_exact", "min_stake_step", "status_step", "matures_on_time", "never_early", "end_no_halt"])
+_chain("C09", ["jailed_not_in_target", "jailed_excluded_after_end", "unjail_iff", "unjail_effect", "tombstone_forever", "doublesign_tombstones"])
+
 # development-only entry: the chain family with all monitors, no Lean module (not in MANIFEST)
 PROPS["XCHAIN"] = {
     "lean_modules": [], "namespaces": [],
@@ -117,6 +123,35 @@ PROPS["XCHAIN"] = {
 NOT_APPLICABLE = {}
 
 MANIFEST_TEXT = {
+    "C02": {"text": "Lean invariant proved by induction over every operation of the chain model (genesis_inv, step_inv, run_inv): in every state reachable "
+                    "from a consistent genesis the recorded supply equals the sum of all balances and every recorded balance is positive; a transaction "
+                    "changes the supply only if it is an accepted DAO burn (by exactly the amount), EndBlock never, BeginBlock by exactly the queued "
+                    "awards minus the stake removed by slashes / burns / forced unstakes. Tied by differential runs comparing all balances and the "
+                    "supply after every operation, plus a harness monitor that re-sums all accounts.",
+            "note": "single denomination in the model", "technique": "Lean 4 invariant proof (induction over operations) + differential correspondence"},
+    "C04": {"text": "Lean theorems: in every reachable state the staked pool holds at least the recorded stake of all staked/unstaking validators, and the "
+                    "surplus is exactly the coins sent to the pool address directly (zero at genesis, each operation changes it only by such a "
+                    "donation); staking moves exactly the amount into the pool and records exactly that stake; maturity returns exactly the recorded "
+                    "stake and removes the record. Tied by differential runs and the harness's pool-vs-stake monitor after every operation.",
+            "note": "two defects found here (stake recorded twice, doubled mint) are fixed and recorded", "technique": "Lean 4 invariant proof + differential correspondence"},
+    "C05": {"text": "Lean theorems: the update batch of EndBlock (and of InitChain) is always applicable to the set Tendermint holds (distinct keys, "
+                    "removals only of present validators, no negative power) and applying it yields exactly the MaxValidators highest-powered staked, "
+                    "unjailed validators with power floor(stake/10^6), ties broken by lower address; EndBlock does not halt while indexed validators "
+                    "have non-zero power. Rests on the index invariant (C06). Tied by differential runs with a Tendermint stand-in applying the "
+                    "updates at the real delay, MaxValidators in {1,2,3,5,100000} changed by governance mid-run.",
+            "note": "Tendermint's update rules are re-implemented in the harness and in Lean (applyUpdates)", "technique": "Lean 4 proof + differential correspondence"},
+    "C06": {"text": "Lean theorems: in every reachable state the power index lists exactly the staked unjailed validators under their current power and "
+                    "the unstaking queue holds exactly the unstaking validators at their completion times; status changes only along the legal edges, "
+                    "each with its guard (own stake message of at least the minimum, own begin-unstake, maturity in EndBlock at or after completion, "
+                    "forced unstake in BeginBlock); a due validator is paid out in full at this EndBlock and nobody else is touched; minimum stake is "
+                    "kept while the parameter is unchanged. Tied by differential runs and raw index/queue monitors.",
+            "note": "five defects in this area found and fixed (recorded)", "technique": "Lean 4 invariant proof + differential correspondence"},
+    "C09": {"text": "Lean theorems: a jailed validator is not in the target set and absent from the set after the next EndBlock; unjail succeeds iff the "
+                    "validator exists, is jailed, holds the minimum stake, is not tombstoned and block time has reached jailed-until, changing only the "
+                    "jailed flag and re-indexing it with exactly its power; a tombstone is permanent (no operation clears it, every later unjail fails, "
+                    "stake is refused); double-sign conviction tombstones and jails. Tied by differential runs with unjail attempts around "
+                    "jailed-until by every kind of validator.",
+            "note": "the returning-tombstoned-validator defect was found by this proof effort and fixed", "technique": "Lean 4 invariant proof + differential correspondence"},
     "C10": {"text": "Lean theorems over the rewards model: all collected fees go in full to the recorded proposer when it is a known validator, else stay "
                     "in the pos module account, and nothing else moves; every queued award is minted exactly once (each address gains exactly its "
                     "queued sum, supply grows by the total, queue empty afterwards, an empty queue mints nothing); BeginBlock as a whole changes every "
